@@ -1,7 +1,18 @@
 """Per-property configuration of ./check (budgets, Lean modules, evidence texts)."""
 
+LEVEL_NOTE = ("Trusted: Lean 4.33.0 kernel with axioms propext/Classical.choice/Quot.sound only (audited by #print axioms on every run); "
+              "the go/ast fact extractor and the Go harness (generation, canonicalisation); the Spec/ predicates as the reading of the property. "
+              "The theorems are about the hand-written executable model; the model is tied to /repo by regenerated facts and by differential "
+              "correspondence on the generated inputs of each run (not on all inputs). ")
+
 PROPS = {
     "C11": dict(
+        registered=True,
+        level_text="Kernel-checked theorems for all commit graphs and timestamps: IsAncestorOf answers true iff reachable and always terminates within the stated fuel; "
+                   "a walk visits each ancestor exactly once; the two-input merge base is a common ancestor and is found iff one exists. The three-or-more-input and "
+                   "'base is the input when it is an ancestor' clauses are proved FALSE of the code on concrete witnesses (known findings). Correspondence: model == ref.IsAncestorOf / "
+                   "SeekCommonAncestor / PopInsertParents on thousands of random DAGs per run, oracle `reach` proved equal to the spec `Reach`.",
+        level_note=LEVEL_NOTE + "Modelled rather than verified: commits_queue.go, utils.go transcribed by hand; objects.GetCommit assumed to return the stored commit.",
         lean_modules=["WrglModel.Props.C11"],
         quick_n=300, thorough_n=6000,
         rule="random DAGs (1..10 commits quick, 1..16 thorough; merges, several roots, 5 timestamp modes) x "
@@ -13,6 +24,12 @@ PROPS = {
 }
 
 PROPS["C04"] = dict(
+    registered=True,
+    level_text="Kernel-checked theorem C04_diff_exact: for ALL pairs of structurally sound tables (any number of blocks, any key ranges, either side empty, any key arity) "
+               "the modelled differ never panics and its event list satisfies every clause of the property (added/removed/modified exact, nothing else, no key twice, offsets right). "
+               "The same decidable predicate is evaluated by Lean on the real diff.DiffTables output of every generated pair, and model output == Go output event-for-event.",
+    level_note=LEVEL_NOTE + "Hypotheses of the theorem: ATable.WF (a consequence of C03, evaluated on the real tables of each run) and hashes identifying keys/rows. "
+               "Modelled rather than verified: iterate.go, diffRows, BlockIndex.Get transcribed by hand; column-diff and progress reporting not modelled.",
     lean_modules=["WrglModel.Props.C04"],
     quick_n=160, thorough_n=2500,
     rule="pairs of tables ingested through the real sorter/inserter (0..2 blocks quick, 0..4 thorough; 1..3 columns; "
@@ -34,4 +51,51 @@ PROPS["C06"] = dict(
              "table.go (WriteTo, ReadFrom), commit.go (WriteTo, ReadFrom), pkg/encoding/objline (WriteString, WriteTime, DecodeTime, fields), "
              "packfile header codec, objects.Save* key derivation",
     assumptions=["meow.Checksum is a function (digest supplied by the Go run)", "s2 compression round-trips (block bytes are compared before compression)"],
+)
+
+PROPS["C19"] = dict(
+    registered=True,
+    level_text="Kernel-checked theorems for all row multisets, all run sizes and any correct sort: the k-way merge of spilled runs plus adjacent-key collapse keeps exactly one input row "
+               "per distinct key in strictly ascending byte order; blocks are cut 255/255/.../1..255; both outputs agree; with unique keys the result is independent of the memory limit "
+               "and input order; AddRow fails exactly on cells over 65535 bytes and never panics. Correspondence: Sorter.AddRow/SortedBlocks/SortedRows/Close vs the model on generated cases.",
+    level_note=LEVEL_NOTE + "sort.Slice is a parameter assumed to be a correct sort; temp files are modelled as lists (their deletion is observed on the implementation only).",
+    lean_modules=["WrglModel.Props.C19"],
+    quick_n=300, thorough_n=4000,
+    rule="row multisets (0..2 blocks quick, 0..4 thorough; unique, colliding and random keys; duplicated keys placed at random "
+         "positions; all-empty keys; single/composite/absent key; removed-column sets) x run sizes from 'every row spills' to "
+         "'nothing spills', through Sorter.AddRow + SortedBlocks and SortedRows + Close; non-trivial = >255 rows or >=1 spill; "
+         "distinct = distinct (op, input)",
+    modelled="pkg/sorter/sorter.go (AddRow, SortRows, SortedBlocks, SortedRows, pkIsDifferent, removeCols, Close), StrList.LessThan, StringSliceIsLess, StrListEditor.RemoveFrom",
+    assumptions=["sort.Slice is a correct (unstable) sort: with duplicate keys the surviving representative is compared by the property clauses only",
+                 "chunk files round-trip rows (string-list codec, C06)"],
+)
+
+_INGEST_RULE = ("generated CSV tables (1..4 columns; 0..2 blocks quick, 0..4 thorough; unique/colliding/random keys; all-empty keys; "
+                "quotes, newlines, non-UTF-8 bytes, 65534..131072-byte cells) x key subsets/orders incl. none x run sizes from "
+                "'every row spills' to 'nothing spills' x 1..8 workers x delimiters, through ingest.IngestTable and read back with "
+                "GetTable/GetBlock; rows handed to the oracle are what encoding/csv re-reads from the written file; "
+                "non-trivial = >255 rows or a spill or a >=130000-byte cell; distinct = distinct (op, input)")
+
+PROPS["C01"] = dict(
+    lean_modules=["WrglModel.Props.C01"],
+    quick_n=240, thorough_n=3000, rule=_INGEST_RULE,
+    modelled="pkg/sorter/sorter.go, pkg/ingest/inserter.go (ingestTableFromBlocks, sortBlocks), objects.StrListEncoder/Decoder, block codec",
+    assumptions=["encoding/csv tokenisation is trusted: the oracle's rows are what a plain csv.Reader returns for the file",
+                 "s2 compression round-trips", "the CLI path (wrgl commit / wrgl export) is covered by C13's CLI runs, not here"],
+)
+PROPS["C02"] = dict(
+    lean_modules=["WrglModel.Props.C02"],
+    quick_n=120, thorough_n=1500,
+    rule="logical tables with unique keys ingested under 5 configurations (row permutation, spill sizes, 1..8 workers, delimiter) "
+         "plus single-edit mutants (cell, column name, column order, key choice, row removed); non-trivial = >=2 rows; "
+         "distinct = distinct (op, input)",
+    modelled="objects.Table.WriteTo/writeMeta, SaveTable, SaveCompressedBlock key derivation; sorter/ingest as in C01",
+    assumptions=["meow.Checksum is collision-free on the byte strings of a run (hypothesis of C02_injective)",
+                 "delimiter independence is observed on the implementation only (CSV parsing is not modelled)"],
+)
+PROPS["C03"] = dict(
+    lean_modules=["WrglModel.Props.C03"],
+    quick_n=240, thorough_n=3000, rule=_INGEST_RULE + "; producers: ingest (others are exercised by C05/C07 runs)",
+    modelled="sorter block cutting and block keys, objects.IndexBlockFromBytes/IndexBlock (as the invariant they establish), doctor.diagnoseCommit (observed)",
+    assumptions=["row and key hashes are recomputed by the harness with meow over the string-list encoding"],
 )
